@@ -702,7 +702,7 @@ fn build_default_for_struct(
         impl #impl_g #trait_ for #this_ty #wheres {
             fn default() -> Self {
                 // not `#value` alone: at statement position `match .. {} + x` would end after the block
-                ::core::convert::identity::<Self>(#value)
+                (#value)
             }
         }
     })
@@ -772,7 +772,7 @@ fn build_default_for_enum(
         impl #impl_g #trait_ for #this_ty #wheres {
             fn default() -> Self {
                 // not `#value` alone: at statement position `match .. {} + x` would end after the block
-                ::core::convert::identity::<Self>(#value)
+                (#value)
             }
         }
     })
